@@ -246,7 +246,17 @@ func asymptotic_bessel_i_large_x(v, x float64) float64 {
 /* -------------------------------------------------------------------------- */
 
 func temme_ik(v, x float64) (float64, float64) {
-  var K, K1, f, h, p, q, coef, sum, sum1, tolerance float64
+  sum, sum1 := temme_ik_sums(v, x)
+
+  return sum, 2 * sum1 / x
+}
+
+// The two series of Temme's method: K(v, x) = sum and K(v+1, x) = 2 sum1 / x.
+// For v > 0 and tiny x the quotient overflows although sum1 does not
+// (v = 1/4, x = 1e-247: sum1 = 1e62), so that callers working in the log
+// domain form log(2 sum1) - log(x) instead.
+func temme_ik_sums(v, x float64) (float64, float64) {
+  var f, h, p, q, coef, sum, sum1, tolerance float64
   var a, b, c, d, sigma, gamma1, gamma2 float64
 
   // |x| <= 2, Temme series converge rapidly
@@ -306,10 +316,7 @@ func temme_ik(v, x float64) (float64, float64) {
     }
   }
 
-  K  = sum
-  K1 = 2 * sum1 / x
-
-  return K, K1
+  return sum, sum1
 }
 
 /* -------------------------------------------------------------------------- */
